@@ -17,6 +17,8 @@ From Coq Require Import ZArith List Bool Permutation.
 From CSS Require Import Base.Sx Forest.Spec Forest.Model Forest.Invariant Forest.Correct Forest.Theorems
   Forest.GenBridge Forest.TerminationDefs Forest.TerminationGap Forest.Termination Forest.TerminationRun Forest.Run.
 From CSS Require Gen.ForestCanGiveTerms Gen.ForestComputeShift Gen.ForestPreimageGap.
+From CSS Require Gen.ForestIncreaseValueHold Gen.ForestCorrectGapNewGap Gen.ForestCorrectGapRelease.
+From CSS Require Import Forest.GenBridgeGap.
 Import ListNotations.
 Open Scope Z_scope.
 
@@ -532,6 +534,36 @@ Example C03_harness_obs_value :
   length (run_obs (fuel_for c3_fin) init c3_fin) = 3%nat /\ run_obs 1 init c3_fin = [L [I (-1)]].
 Proof. split; vm_compute; reflexivity. Qed.
 
+(* ================= the gap bookkeeping is the source's (translator) =================
+   _increase_value parks a rule exactly when the source's test
+   `current_value > self._current_gap[1]` holds, and _correct_gap computes the
+   gap interval and releases the parked rules by the source's expressions
+   (Gen/ForestIncreaseValueHold.v, Gen/ForestCorrectGapNewGap.v,
+   Gen/ForestCorrectGapRelease.v, re-translated from rule_db/forest.py each run). *)
+Theorem C03_hold_test_is_source : forall st c i,
+  increase_value st c i =
+  match getf (fn st) c with
+  | None => st
+  | Some v =>
+      if ForestIncreaseValueHold.increase_value_hold v (snd (cgap st))
+      then mktm (rules st) (fn st) (gsize st) (cgap st) (queue st) (add_held (held st) i)
+      else
+        let f' := upd (fn st) c (Some (v + 1)) in
+        let st1 := mktm (rules st) f' (gsize st) (cgap st) (queue st) (held st) in
+        let st2 := if fst (cgap st) =? Model.preimage_gap f' (gsize st) then st1 else correct_gap st1 in
+        mktm (rules st2) (fn st2) (gsize st2) (cgap st2) (queue st2 ++ requeue st2 f' c) (held st2)
+  end.
+Proof. exact increase_value_is_source. Qed.
+
+Theorem C03_correct_gap_is_source : forall st,
+  correct_gap st =
+  let ng := ForestCorrectGapNewGap.correct_gap_new_gap (Model.preimage_gap (fn st) (gsize st)) (gsize st) in
+  let new := (Gen.Prelude.py_get 0 ng 0, Gen.Prelude.py_get 0 ng 1) in
+  if ForestCorrectGapRelease.correct_gap_release ng (snd (cgap st))
+  then mktm (rules st) (fn st) (gsize st) new (queue st ++ held st) []
+  else mktm (rules st) (fn st) (gsize st) new (queue st) (held st).
+Proof. exact correct_gap_is_source. Qed.
+
 Print Assumptions C03_sound_complete.
 Print Assumptions C03_order_independent.
 Print Assumptions C03_permutation_independent.
@@ -555,3 +587,5 @@ Print Assumptions C03_total_order_independent.
 Print Assumptions C03_total_monotone.
 Print Assumptions C03_total_pumping_subuniverse.
 Print Assumptions C03_harness_never_out_of_fuel.
+Print Assumptions C03_hold_test_is_source.
+Print Assumptions C03_correct_gap_is_source.
